@@ -280,6 +280,7 @@ static bool replay(const std::string& id, const std::string& progs_s, const std:
             if (k == 's')
             {
                 unsigned long before = w->pump->posted_now();
+                unsigned long shells_before = w->pump->shell_calls_now();
                 {
                     std::lock_guard<std::mutex> lk(mt::G);
                     if (next[c] >= (int)progs[c].size() || mt::cs[c].done != mt::cs[c].started) { stuck = where + ": client not ready"; break; }
@@ -297,6 +298,33 @@ static bool replay(const std::string& id, const std::string& progs_s, const std:
                     std::lock_guard<std::mutex> lk(mt::G);
                     stuck = where + ": the client thread did not post a closure to the dispatcher" +
                             (mt::cs[c].at_gate ? " (it is at a Select/Deselect log callback instead)" : mt::cs[c].done == mt::cs[c].started ? " (its call returned without reaching the dispatcher)" : "");
+                }
+                else
+                {
+                    // the model's client is now Blocked until the dispatcher has run its closure: the client thread must be waiting
+                    // inside dzn::shell, not past it
+                    bool waiting = false, past = false;
+                    for (int spin = 0; spin < mt::TIMEOUT * 10 && !waiting && !past; ++spin)
+                    {
+                        waiting = w->pump->shell_calls_now() > shells_before;
+                        if (!waiting)
+                        {
+                            std::unique_lock<std::mutex> lk(mt::G);
+                            past = mt::cs[c].at_gate != 0 || mt::cs[c].done == mt::cs[c].started;
+                            if (!past) mt::CV.wait_for(lk, std::chrono::microseconds(100));
+                        }
+                    }
+                    if (!waiting)
+                    {
+                        if (!lenient) stuck = where + ": the client thread went on without waiting for the dispatcher to run its closure";
+                        else
+                        {
+                            std::unique_lock<std::mutex> lk(mt::G);
+                            out << " early" << c;
+                            if (mt::cs[c].at_gate) { out << " xgate" << c << ":" << (mt::cs[c].at_gate == 1 ? "select" : "deselect") << "-before-dispatch"; mt::cs[c].gate_open = true; mt::CV.notify_all();
+                                                     mt::wait_until(lk, [&] { return mt::cs[c].done == mt::cs[c].started && !mt::cs[c].gate_open; }, 1000); }
+                        }
+                    }
                 }
             }
             else if (k == 'd')
